@@ -91,6 +91,7 @@ func Start(id string, level string) *Run {
 		nontrivial: map[string]struct{}{}, viols: map[string]*violation{}, maxSamples: 6,
 		extra: map[string]interface{}{}}
 	os.MkdirAll(r.WorkDir(), 0o755)
+	r.startStallDetector()
 	return r
 }
 
@@ -131,11 +132,16 @@ func (r *Run) SetExhaustive(b bool)          { r.mu.Lock(); r.exhaustive = &b; r
 func (r *Run) Extra(k string, v interface{}) { r.mu.Lock(); r.extra[k] = v; r.mu.Unlock() }
 
 // Eval counts one executed case.
-func (r *Run) Eval()       { r.mu.Lock(); r.evals++; r.mu.Unlock() }
-func (r *Run) Evals(n int) { r.mu.Lock(); r.evals += int64(n); r.mu.Unlock() }
+func (r *Run) Eval()       { progress(); r.mu.Lock(); r.evals++; r.mu.Unlock() }
+func (r *Run) Evals(n int) { progress(); r.mu.Lock(); r.evals += int64(n); r.mu.Unlock() }
 
 // Count adds to a named counter that is written into the evidence.
-func (r *Run) Count(key string, n int) { r.mu.Lock(); r.counters[key] += int64(n); r.mu.Unlock() }
+func (r *Run) Count(key string, n int) {
+	progress()
+	r.mu.Lock()
+	r.counters[key] += int64(n)
+	r.mu.Unlock()
+}
 
 func (r *Run) Counter(key string) int64 { r.mu.Lock(); defer r.mu.Unlock(); return r.counters[key] }
 
